@@ -220,6 +220,9 @@ public:
     /// \brief Exchanges the stored callable objects of *this and other.
     auto swap(inplace_function& other) noexcept -> void
     {
+        if (this == etl::addressof(other)) {
+            return;
+        }
         auto tmp = storage_t{};
         _vtable->relocate_ptr(etl::addressof(tmp), etl::addressof(_storage));
         other._vtable->relocate_ptr(etl::addressof(_storage), etl::addressof(other._storage));
